@@ -81,6 +81,7 @@ type lexer struct {
 	comments []*ast.Comment
 	cmdSubst rune
 	bquote   bool
+	stopped  bool // whether the lexer has found an error (lexer goroutine only)
 	token    chan ast.Node
 	done     chan struct{}
 
@@ -630,7 +631,7 @@ func (l *lexer) lexFuncDef() action {
 }
 
 func (l *lexer) lexToken(tok int) action {
-	if tok <= 0 && l.heredoc.exists() {
+	if tok <= 0 && l.heredoc.exists() && !l.stopped {
 		// EOF before the here-documents of the last line
 		return l.lexHeredoc
 	}
@@ -1553,6 +1554,7 @@ func (l *lexer) scanCmdSubst(r rune) bool {
 			l.mu.Lock()
 			l.setErr(err)
 			l.mu.Unlock()
+			l.stopped = true
 			break
 		}
 		// apply changes
@@ -1806,10 +1808,17 @@ func (l *lexer) unread() {
 }
 
 func (l *lexer) Error(e string) {
-	l.error(l.last.Load().(ast.Pos), e)
+	l.report(l.last.Load().(ast.Pos), e)
 }
 
+// error reports an error which was found by the lexer itself; lexing
+// does not continue after it.
 func (l *lexer) error(pos ast.Pos, msg string) {
+	l.stopped = true
+	l.report(pos, msg)
+}
+
+func (l *lexer) report(pos ast.Pos, msg string) {
 	verifPoint(l, EvErrWrite)
 	l.mu.Lock()
 	defer l.mu.Unlock()
